@@ -1,4 +1,4 @@
-(* C24 -- property theorems, 1D handler, Lagrangian setting (statements only; proofs in C24Proofs.v). *)
+(* C24 -- property theorems, 1D handler (statements only; proofs in C24Proofs.v). *)
 From Coq Require Import Reals List.
 From Coquelicot Require Import Coquelicot.
 From C24 Require Import C24Spec C24_gen C24Proofs.
@@ -33,3 +33,27 @@ Theorem C24_material_moduli_1D : forall F0 F1 F2 T0 T1 T2 K0 K1 K2 K3 K4 K5 K6 K
   forall i j, (i < 3)%nat -> (j < 3)%nat -> nth (6 + 3 * i + j) out 0 = material_moduli (Ks i j) (T i) (C i) (C j) (Nat.eqb i j).
 Proof. exact moduli_ok. Qed.
 Print Assumptions C24_material_moduli_1D.
+
+(* ---- second round: Cauchy conversions, spatial moduli, Eulerian setting *)
+(* convertToCauchyStress: sigma = T / J; convertFromCauchyStress inverts it *)
+Theorem C24_cauchy_conversions_1D : forall F0 F1 F2 T0 T1 T2 K0 K1 K2 K3 K4 K5 K6 K7 K8, 0 < F0 -> 0 < F1 -> 0 < F2 ->
+  let out := lsh1 F0 F1 F2 T0 T1 T2 K0 K1 K2 K3 K4 K5 K6 K7 K8 in let J := F0 * F1 * F2 in
+  nth 18 out 0 = T0 / J /\ nth 19 out 0 = T1 / J /\ nth 20 out 0 = T2 / J /\ nth 21 out 0 = T0 /\ nth 22 out 0 = T1 /\ nth 23 out 0 = T2.
+Proof. exact cauchy_ok. Qed.
+Print Assumptions C24_cauchy_conversions_1D.
+(* convertToSpatialTangentModuli = push-forward C_i C_j of the material moduli = Ks_ij - 2 delta_ij T_i; Truesdell-rate moduli = spatial / J *)
+Theorem C24_spatial_moduli_1D : forall F0 F1 F2 T0 T1 T2 K0 K1 K2 K3 K4 K5 K6 K7 K8, 0 < F0 -> 0 < F1 -> 0 < F2 ->
+  let out := lsh1 F0 F1 F2 T0 T1 T2 K0 K1 K2 K3 K4 K5 K6 K7 K8 in let J := F0 * F1 * F2 in
+  let C i := nth i [F0 * F0; F1 * F1; F2 * F2] 0 in let T i := nth i [T0; T1; T2] 0 in
+  let Ks i j := nth (3 * i + j) [K0; K1; K2; K3; K4; K5; K6; K7; K8] 0 in
+  forall i j, (i < 3)%nat -> (j < 3)%nat ->
+    nth (24 + 3 * i + j) out 0 = C i * C j * nth (6 + 3 * i + j) out 0 /\
+    nth (24 + 3 * i + j) out 0 = Ks i j - (if Nat.eqb i j then 2 * T i else 0) /\
+    nth (33 + 3 * i + j) out 0 = nth (24 + 3 * i + j) out 0 / J.
+Proof. exact spatial_ok. Qed.
+Print Assumptions C24_spatial_moduli_1D.
+(* the Eulerian setting returns the same values in 1D (b = C in the principal axes) *)
+Theorem C24_eulerian_setting_1D : forall F0 F1 F2 T0 T1 T2 K0 K1 K2 K3 K4 K5 K6 K7 K8,
+  lsh1_E F0 F1 F2 T0 T1 T2 K0 K1 K2 K3 K4 K5 K6 K7 K8 = lsh1 F0 F1 F2 T0 T1 T2 K0 K1 K2 K3 K4 K5 K6 K7 K8.
+Proof. exact eulerian_ok. Qed.
+Print Assumptions C24_eulerian_setting_1D.
